@@ -14,6 +14,7 @@ DECIDED = ("R1 Kernel::bind: the socket is created and its binding inserted only
 NOT_DECIDED = "the accept/reject matrix as a function of live sockets; SO_REUSE* (not modelled)."
 DECIDED += "; R2 also the converse: wherever Socket::bound is set the binding index is updated in the same function"
 DECIDED += "; R4 also: a SYN for the pair of a Closed connection reaches the listener"
+DECIDED += "; R3 also: the allocator's wrap test is taken on the port itself (no u16 successor compared with the end of the range)"
 DECIDED += '; R6 also: a port is allocated in the (domain, type) space it is then bound in'
 DECIDED += '; R7 demultiplexing keys are rebuilt from (ip, port): the remote half of every connection-index key and the connected-UDP peer comparison (no IPv6 scope id / flow label)'
 DECIDED += '; a failed connect closes the socket it auto-bound and a closing wildcard listener sweeps its half-open children (shared C13-R3 / R4)'
@@ -175,6 +176,30 @@ def r3(ctx):
             okx = CUR in a0 and CUR in a1 and RNG not in a0 and RNG not in a1
         ctx.inst(R, "allocate:exhaustion-after-full-cycle", okx, p.span, "None is returned only when the cursor is back at its entry value (every port was examined)" if okx else
                  "the exhaustion test does not compare the cursor with its value on entry: ports below the cursor are never examined and a free port is reported as AddrInUse")
+        # the wrap decision survives the top of the u16 space: the default range ends at u16::MAX, where a successor computed in
+        # u16 does not exist (`p + 1` overflows, saturating_add stays, wrapping_add restarts at 0) - so the test that sends the
+        # cursor back to range.start() compares values free of u16 arithmetic (`p == end`, `p >= end`), or the successor is
+        # computed in a wider type / by checked_add
+        wraps = []
+        for sbb, te, fe, o in guards_on(p, lambda o: o["k"] == "bin" and o["op"] in ("Eq", "Ne", "Gt", "Ge", "Lt", "Le")):
+            a0 = Slicer(ctx.w).atoms(p, o["a"])
+            a1 = Slicer(ctx.w).atoms(p, o["b"])
+            if not ((RNG in a0) ^ (RNG in a1)):
+                continue
+            other = o["b"] if RNG in a0 else o["a"]
+            pl = op_place(other)
+            narrow = pl is not None and p.ty_str(p.locals[pl["l"]]["ty"]) == "u16"
+
+            def has_arith(sh):
+                return isinstance(sh, tuple) and (sh[0] in ("Add", "Sub", "saturating_add", "wrapping_add", "saturating_sub", "wrapping_sub") or any(has_arith(k) for k in sh[1:]))
+            sh = expr_shape(p, other)
+            wraps.append((narrow and has_arith(sh), shape_str(sh), p.term(sbb).get("s", p.span)))
+        badw = [w for w in wraps if w[0]]
+        ctx.inst(R, "allocate:wrap-test-at-top-of-range", bool(wraps) and not badw, badw[0][2] if badw else p.span,
+                 "the cursor's wrap test compares the port itself with the end of the range" if wraps and not badw else
+                 (f"PortAllocator::allocate decides the wrap on a successor computed in u16 ({badw[0][1]}) compared with range.end(): the default range ends at 65535, where that "
+                  "successor does not exist - the cursor sticks at 65535 (or leaves the range) and every later port-0 bind probes one port only: AddrInUse with 16383 ports free"
+                  if badw else "no comparison of the cursor with the end of the range found in PortAllocator::allocate: re-derive"))
         ctx.inst(R, "allocate:free-only", ok, p.span, "a port is returned only when in_use(p) is false" if ok else "PortAllocator::allocate can return a port without the in_use(p) == false test")
     ctx.floor(R, 3)
 
